@@ -237,3 +237,38 @@ func SetStringBounds(s string) []string {
 	}
 	return out
 }
+
+// RoundTripExtras are constraints only the text round trip (C11) uses: OR-lists of three hyphen or comparator
+// ranges in which two ranges share a lower bound, one upper bound is a prerelease (canon keeps such spans apart)
+// and a third range overlaps or abuts the others, so that a canonical set has several spans with one minimum;
+// NuGet floating patterns with four components; bounds next to the largest representable number.
+func RoundTripExtras(sys semver.System) []string {
+	var out []string
+	switch sys {
+	case semver.DefaultSystem, semver.NPM:
+		lows := []string{"1.0.0", "1.2.3"}
+		ups := []string{"1.5.0", "2.0.0-a", "3.0.0", "1.3.0-b", "1.2.5", "2.0.0"}
+		mids := []string{"1.4.0", "1.2.4", "2.0.0-a", "1.5.0"}
+		for _, l := range lows {
+			for _, u1 := range ups {
+				for _, u2 := range ups {
+					if u1 == u2 {
+						continue
+					}
+					for _, m := range mids {
+						for _, u3 := range ups {
+							out = append(out, l+" - "+u1+" || "+l+" - "+u2+" || "+m+" - "+u3)
+						}
+					}
+					out = append(out, ">="+l+" <"+u1+" || >="+l+" <="+u2+" || >=1.2.4", ">="+l+" <="+u1+" || >="+l+" <"+u2+" || >1.4.0 <3")
+				}
+			}
+		}
+		out = append(out, ">1.2.9223372036854775806", ">=1.2.9223372036854775806", "<=1.9223372036854775806.0", ">9223372036854775806.0.0")
+	case semver.NuGet:
+		out = append(out, "1.2.3.*", "[1.2.3.*,)", "1.2.3.4", "[1.2.3.4,1.2.3.5)", "(1.2.3.4,)", "1.2.3.4-*")
+	case semver.Cargo:
+		out = append(out, ">1.2.9223372036854775806", ">=1.2.9223372036854775806")
+	}
+	return dedup(out)
+}
